@@ -122,7 +122,7 @@ def run_case(args):
 
         results, truncated = explore.explore(fn, max_paths=opts.get("max_paths", 200))
         has_matrix = '"level": "M"' in json.dumps(case)
-        if has_matrix and not any(r.violations for r in results) and any("nonphysical_model" in r.flags for r in results):
+        if not any(r.violations for r in results) and any("nonphysical_model" in r.flags for r in results):
             # the first pass quantifies Matrix-level contents over all unit-trace Hermitian matrices (a superset
             # of the states; sound for "holds").  A counterexample may be non-physical: confirm over rank<=2
             # density matrices (always valid states) and report only what survives.
